@@ -281,6 +281,9 @@ class StmtMixin(object):
         raise Unsupported('str field %s receives %r' % (attr, v))
       nv = v.t
     st.heap = st.heap.with_(('fld', attr), upd1(old, base.t, nv))
+    if getattr(self, 'mode', 'vc') == 'event' and base.ty.kind in ('any', 'opt', 'union', 'obj', 'callable'):
+      # a store into an attribute of an object that outlives the call: an observable effect (object, value, in order)
+      st.trace.append(ops.Event('setattr', 'setattr:' + attr, [base.t, to_u(v, st)]))
     oldhas = st.heap.fld('has!' + attr, B)
     st.heap = st.heap.with_(('fld', 'has!' + attr), upd1(oldhas, base.t, z3.BoolVal(True)))
 
@@ -304,7 +307,7 @@ class StmtMixin(object):
           yield 'normal', st2, None
         else:
           yield 'raise', st2, Exc('IndexError')
-    elif getattr(self, 'mode', 'vc') == 'event' and isinstance(base, VRef) and base.ty.kind in ('any', 'opt', 'union', 'obj', 'callable'):
+    elif getattr(self, 'mode', 'vc') == 'event' and (isinstance(base, VBound) or isinstance(base, VRef) and base.ty.kind in ('any', 'opt', 'union', 'obj', 'callable')):
       for st2, r in self.call_opaque(VBound(base, '__setitem__'), [idx, v], {}, st):
         if isinstance(r, Exc):
           yield 'raise', st2, r
